@@ -8,5 +8,5 @@ ENTRY = dict(
         'modelled by hand: Conc.v (commit micro-steps, count merged at CStore); removes, splits and the Count==0 short-circuit exist only in Corr/C03.v stage model',
         'harness: pause/gate scheduler, stage labelling from recorded events, Go map model of the writer program',
     ],
-    assumptions=['the reader is a new transaction of the same process', 'one writer at a time in the harness (the theorems allow any number)'],
+    assumptions=['the reader is a new transaction of the same process (warm shapes: caches warmed by the setup commit; cold-start shapes: store committed by another process, writer reads first)', 'one writer at a time in the harness (the theorems allow any number)'],
 )
